@@ -970,6 +970,7 @@ def build_streams(chk, names, sizes):
             out = impl_real_encode('EUC-TW', t)[0].split(' trace=')[0]
             outs.append('err ' + out.split(' ')[1] if out.startswith('uerr') else out)
     fam['euctw'] = (lines, outs)
+    ref_calls = []
     # ---- EUC-TW once more, now against the model over the GENERATED tables (Generated.CharsetCns*: every answer of the system
     # iconv, dumped by tools/translate/charsetcns2lean.py): no oracle travels with the line.  `rt` = what theorem euctw_roundtrip
     # predicts for encode(decode(b)) == b, compared with what the tool's codec does.
@@ -989,6 +990,7 @@ def build_streams(chk, names, sizes):
                 continue
             lines.append(f'charset euctw-rdec {hexbytes(b)}')
             out, sess = impl_real_decode('EUC-TW', b)
+            ref_calls.append(('refdec euctw', hexbytes(b), sess))
             head = out.split(' trace=')[0]
             if head.startswith('uerr'):
                 kind = sess.recorded[-1][2][0] if sess.recorded else '?'
@@ -1012,9 +1014,48 @@ def build_streams(chk, names, sizes):
             except UnicodeEncodeError:
                 continue
             lines.append(f'charset euctw-renc {hexchars(t)}')
-            out = impl_real_encode('EUC-TW', t)[0].split(' trace=')[0]
+            out, sess = impl_real_encode('EUC-TW', t)
+            ref_calls.append(('refenc euctw', hexchars(t), sess))
+            out = out.split(' trace=')[0]
             outs.append('err ' + out.split(' ')[1] if out.startswith('uerr') else out)
     fam['euctw-real'] = (lines, outs)
+    # ---- the reference iconv (Spec/CharsetIconv.lean: unit by unit, room checked first, offending unit unconsumed) against
+    # the real glibc, CALL BY CALL: every conversion call the tool's loop made above (told = n, 2n, 4n, …) with its return
+    # code, the input it consumed and the bytes it wrote; plus KOI8-T through the tool's own binding
+    if R.ok and R.cd('UTF-32LE', 'KOI8-T') is not None:
+        kb = [bytes([x]) for x in range(256)] + [bytes([0x41, x, 0x42]) for x in range(0x80, 0x100, 5)] + G.byte_strings_single(rng, sizes['euctw'] // 6)
+        ktexts = set()
+        for b in kb:
+            if not b:
+                continue
+            out, sess = impl_real_decode('KOI8-T', b)
+            ref_calls.append(('refdec koi8t', hexbytes(b), sess))
+            if out.startswith('ok '):
+                try:
+                    ktexts.add(bytes(b).decode('koi8_t'))
+                except Exception:
+                    pass
+        for t in ['\U000e0041', 'a\U000e0041b', '\u0451\U000e0001', '\ufffe', 'a\u20acb'] + G.texts(rng, sorted(set(''.join(ktexts))), sizes['euctw'] // 6):
+            if not t:
+                continue
+            try:
+                t.encode('utf-32-le')
+            except UnicodeEncodeError:
+                continue
+            out, sess = impl_real_encode('KOI8-T', t)
+            ref_calls.append(('refenc koi8t', hexchars(t), sess))
+    lines, outs = [], []
+    for op, arg, sess in ref_calls:
+        for r in (sess.recorded or []):
+            told, reset, main, flush = r
+            if told is None or reset is not None:
+                continue
+            lines.append(f'charset {op} {arg} {told}')
+            o = f'{main[0]} {main[1]} {hexbytes(main[2])}'
+            if main[0] == 'ok' and tuple(flush) != ('ok', 0, b''):
+                o += f' flush={flush[0]}:{hexbytes(flush[2])}'
+            outs.append(o)
+    fam['reficonv'] = (lines, outs)
     # ---- character lists
     lines, outs = [], []
     sects = language_sections()
